@@ -167,3 +167,131 @@ def mentions(t, sub):
     if isinstance(t, tuple):
         return any(mentions(x, sub) for x in t if isinstance(x, tuple))
     return False
+
+
+# ---------------------------------------------------------------------------------------------
+# R-SHIFT: interval analysis of shift amounts (local scalar arithmetic only)
+
+WIDTH = {"u8": 8, "i8": 8, "u16": 16, "i16": 16, "u32": 32, "i32": 32, "u64": 64, "i64": 64,
+         "usize": 64, "isize": 64, "u128": 128, "i128": 128}
+INF = 10 ** 30
+
+
+def interval(t, facts, depth=0):
+    """(lo, hi, exact) of a usize-valued tree, or None when nothing is known (free value).
+    exact = every value of the range is attained for some value of the free inputs."""
+    if depth > 12:
+        return None
+    r = _interval(t, facts, depth)
+    if r is None:
+        return None
+    lo, hi, exact = r
+    # refine by dominating facts about this very expression
+    for f in facts:
+        if f[0] == "Ne" and ((f[1] == t and f[2] == ("const", "0")) or (f[2] == t and f[1] == ("const", "0"))):
+            if lo == 0:
+                lo = 1
+        if f[0] in ("Lt", "Le") and f[1] == t and f[2][0] == "const" and f[2][1].isdigit():
+            c = int(f[2][1]) - (1 if f[0] == "Lt" else 0)
+            hi = min(hi, c)
+    return (lo, hi, exact)
+
+
+def _interval(t, facts, depth):
+    k = t[0]
+    if k == "const":
+        try:
+            n = int(t[1])
+            return (n, n, True)
+        except ValueError:
+            return None
+    if k == "bin":
+        op = t[1]
+        a = interval(t[2], facts, depth + 1)
+        b = interval(t[3], facts, depth + 1)
+        if op == "Rem" and b is not None and b[0] == b[1] and b[0] > 0:
+            return (0, b[0] - 1, a is None)
+        if op == "BitAnd" and b is not None and b[0] == b[1]:
+            return (0, b[0], False)
+        if op == "Sub":
+            # overflow-checked: result >= 0
+            lo_extra = 0
+            for f in facts:
+                if f[0] == "Lt" and f[1] == t[3] and f[2] == t[2]:
+                    lo_extra = 1
+                if f[0] == "Gt" and f[1] == t[2] and f[2] == t[3]:
+                    lo_extra = 1
+            if a is None and b is None:
+                return (lo_extra, INF, lo_extra == 0) if lo_extra else None
+            alo, ahi = (a[0], a[1]) if a else (0, INF)
+            blo, bhi = (b[0], b[1]) if b else (0, INF)
+            lo = max(alo - bhi, lo_extra, 0)
+            hi = max(ahi - blo, 0)
+            exact = bool(a and b and a[2] and b[2] and (a[0] == a[1] or b[0] == b[1]))
+            if a is not None and a[0] == a[1] and b is not None:
+                exact = b[2]
+            return (lo, hi, exact)
+        if op == "Add":
+            if a is None or b is None:
+                return None
+            return (a[0] + b[0], a[1] + b[1], a[2] and b[2] and (a[0] == a[1] or b[0] == b[1]))
+        return None
+    if k == "call" and t[1] in (("fn", "min"), ("Ord", "min")) and len(t[2]) == 2:
+        a = interval(t[2][0], facts, depth + 1)
+        b = interval(t[2][1], facts, depth + 1)
+        if a is None and b is None:
+            return None
+        if a is None:
+            return (0, b[1], b[2])
+        if b is None:
+            return (0, a[1], a[2])
+        # min of a bounded-below free-ish value and an exact range attains the range's maximum
+        hi = min(a[1], b[1])
+        lo = min(a[0], b[0])
+        exact = (b[2] and a[1] >= b[1]) or (a[2] and b[1] >= a[1])
+        return (lo, hi, exact)
+    if k == "call" and t[1][1] in ("into", "from", "try_into") and t[2]:
+        return interval(t[2][0], facts, depth + 1)
+    return None
+
+
+def r_shift(F, R):
+    """every overflow-checked shift in the Huffman module whose amount is local scalar arithmetic
+    stays below the width of the shifted type"""
+    n = 0
+    decided = 0
+    for b in F.bodies.values():
+        if "huffman_container" not in b.key or b.derived:
+            continue
+        ctx = None
+        for bi in sorted(b.live_blocks()):
+            t = b.term(bi)
+            if not (t["k"] == "assert" and t.get("msg") == "overflow" and t["op"] in ("Shl", "Shr")):
+                continue
+            ctx = ctx or Ctx(b)
+            n += 1
+            R.saw(b)
+            a = t["a"]
+            ty = a.get("ty") if a["k"] == "const" else b.locals[a["place"]["l"]]["ty"]["s"]
+            w = WIDTH.get(ty)
+            amt = operand_tree(ctx, t["b"])
+            iv = interval(amt, facts_at(ctx, bi)) if w else None
+            where = "%s:%s" % (b.file, t["line"])
+            if iv is None or w is None:
+                R.undecided_site("R-SHIFT", b.label(), "shift of %s by %s at %s: amount not derivable from local arithmetic"
+                                 % (ty, show(amt)[:60], where))
+                continue
+            decided += 1
+            lo, hi, exact = iv
+            if hi < w:
+                R.check("R-SHIFT", b.label(), True, construct="%s of %s by %s" % (t["op"], ty, show(amt)[:70]),
+                        where=where, detail="amount in [%d, %d] < %d" % (lo, hi, w))
+            elif exact:
+                R.check("R-SHIFT", b.label(), False, construct="%s of %s by an amount that can reach %d" % (t["op"], ty, hi),
+                        where=where,
+                        detail="amount %s ranges over [%d, %d] and attains %d >= width %d: overflow panic in checked builds, masked shift otherwise" % (
+                            show(amt)[:90], lo, hi, hi, w))
+            else:
+                R.undecided_site("R-SHIFT", b.label(), "shift of %s at %s: bound [%d, %d] not tight" % (ty, where, lo, hi))
+    R.floor("R-SHIFT", "overflow-checked shifts in the Huffman module", n, 10)
+    R.extra["shift_sites_decided"] = decided
